@@ -957,6 +957,14 @@ func c37GenCfg(r *verifkit.Run, idx int) c37Cfg {
 	}
 	cfg.DoubleClose = rng.IntN(8) == 0
 	cfg.Lat = rng.IntN(4)
+	if cfg.Kind == c37KindBatch && (cfg.CancelAccepted || cfg.CancelRunning) && rng.IntN(4) != 0 {
+		// Cancellation-on-close only matters with a backlog behind busy workers.
+		cfg.Lat = 2 + rng.IntN(2)
+		if cfg.CloseMode == c37CloseImmediately {
+			cfg.CloseMode = c37CloseAtStartK
+			cfg.CloseK = 1 + rng.IntN(cfg.Workers+2)
+		}
+	}
 	if cfg.Hammer && cfg.Lat == 3 {
 		cfg.Lat = 2
 	}
@@ -1038,7 +1046,7 @@ func TestVerifC37(t *testing.T) {
 	r.Assume("With CancelAcceptedOnClose and no CancelAccepted hook, an admitted task that never ran is the configured silent cancellation (counted, not flagged).")
 
 	c37InvalidConfigs(r)
-	n := r.N(560, 6000)
+	n := r.N(640, 9000)
 	for i := 0; i < n; i++ {
 		if r.Skip(i) {
 			continue
